@@ -415,6 +415,10 @@ impl HasChildren for XmlAttribute {
 
         // The kind of the new child is checked before it is taken out of its old parent.
         let v = XmlAttributeValue::try_from(value.clone())?;
+        // Inserting a node before itself leaves it where it is.
+        if id == Some(value.id()) {
+            return Ok(value);
+        }
         value.remove_from_parent();
         value.set_parent_id(Some(self.id()));
         if let Some(id) = id {
@@ -1532,6 +1536,11 @@ impl HasChildren for XmlDocument {
 
     fn insert_by_id(&self, value: Rc<XmlItem>, id: Option<usize>) -> error::Result<Rc<XmlItem>> {
         fn add_or_insert(doc: &XmlDocument, value: Rc<XmlItem>, id: Option<usize>) {
+            // Inserting a node before itself leaves it where it is.
+            if id == Some(value.id()) {
+                return;
+            }
+
             value.remove_from_parent();
             value.set_parent_id(Some(doc.id()));
             if let Some(id) = id {
@@ -2138,6 +2147,11 @@ impl HasChildren for XmlElement {
             | XmlItem::PI(_)
             | XmlItem::Text(_)
             | XmlItem::Unexpanded(_) => {
+                // Inserting a node before itself leaves it where it is.
+                if id == Some(value.id()) {
+                    return Ok(value);
+                }
+
                 value.remove_from_parent();
                 value.set_parent_id(Some(self.id()));
                 if let Some(id) = id {
